@@ -710,6 +710,12 @@ func (v *Protocol) WritePacket(pkt Packet, streamID int) (err error) {
 	m.streamID = uint32(streamID)
 	m.betterCid = pkt.BetterCid()
 
+	// Register the request before the bytes leave, for the peer may response
+	// before the write returns, when another goroutine is reading.
+	if err = v.onPacketWriting(m, pkt); err != nil {
+		return oe.WithMessage(err, "on writing packet")
+	}
+
 	if err = v.WriteMessage(m); err != nil {
 		return oe.WithMessage(err, "write message")
 	}
@@ -721,7 +727,7 @@ func (v *Protocol) WritePacket(pkt Packet, streamID int) (err error) {
 	return
 }
 
-func (v *Protocol) onPacketWriten(m *Message, pkt Packet) (err error) {
+func (v *Protocol) onPacketWriting(m *Message, pkt Packet) (err error) {
 	var tid amf0.Number
 	var name amf0.String
 
@@ -730,9 +736,6 @@ func (v *Protocol) onPacketWriten(m *Message, pkt Packet) (err error) {
 		tid, name = pkt.TransactionID, pkt.CommandName
 	case *CreateStreamPacket:
 		tid, name = pkt.TransactionID, pkt.CommandName
-	case *SetChunkSize:
-		// The peer applies the announced chunk size to all following chunks.
-		v.output.opt.chunkSize = pkt.ChunkSize
 	}
 
 	if tid > 0 && len(name) > 0 {
@@ -740,6 +743,16 @@ func (v *Protocol) onPacketWriten(m *Message, pkt Packet) (err error) {
 		defer v.input.ltransactions.Unlock()
 
 		v.input.transactions[tid] = name
+	}
+
+	return
+}
+
+func (v *Protocol) onPacketWriten(m *Message, pkt Packet) (err error) {
+	switch pkt := pkt.(type) {
+	case *SetChunkSize:
+		// The peer applies the announced chunk size to all following chunks.
+		v.output.opt.chunkSize = pkt.ChunkSize
 	}
 
 	return
